@@ -299,6 +299,26 @@ static void cstring_counts()
     if (tl_allocs == a0) vf::J("error").s("msg", "allocation monitor did not observe the control allocation (13 C strings)").emit();
     drain();
   }
+  // std::string / std::string_view values do not use the size cache: any number of them must stay allocation free
+  {
+    static constexpr MacroMetadata md{"c11.cpp:6", "str13", "{}{}{}{}{}{}{}{}{}{}{}{}{}{}", nullptr, LogLevel::Info, MacroMetadata::Event::Log};
+    std::string s[14];
+    for (int i = 0; i < 14; ++i) s[i] = std::string(static_cast<size_t>(i + 20), static_cast<char>('A' + i));
+    std::string_view v3{s[3]}, v7{s[7]};
+    measured("14 x std::string / string_view (non-SSO)", true,
+             [&] { g_logger->template log_statement<false, false>(LogLevel::None, &md, s[0], s[1], s[2], v3, s[4], s[5], s[6], v7, s[8], s[9], s[10], s[11], s[12], s[13]); });
+    drain();
+    static constexpr MacroMetadata md2{"c11.cpp:7", "vec40", "{} {} {}", nullptr, LogLevel::Info, MacroMetadata::Event::Log};
+    std::vector<std::string> vs;
+    std::vector<std::string_view> vv;
+    for (int i = 0; i < 40; ++i) vs.push_back(std::string(static_cast<size_t>(17 + i % 5), 'e'));
+    for (auto const& x : vs) vv.emplace_back(x);
+    std::array<std::string, 16> as;
+    for (auto& x : as) x = std::string(30, 'a');
+    measured("vector<string>(40), vector<string_view>(40), array<string,16>", true,
+             [&] { g_logger->template log_statement<false, false>(LogLevel::None, &md2, vs, vv, as); });
+    drain();
+  }
   // string lengths up to what fits the queue buffer
   {
     static constexpr MacroMetadata md{"c11.cpp:5", "len", "{}", nullptr, LogLevel::Info, MacroMetadata::Event::Log};
